@@ -241,10 +241,23 @@ def sample_of(scs, k=2):
     return out
 
 
-def run_e1(res, pid, scs, wd, name):
+def _level_sample(res, scs, k=16):
+    """a sample of the scripts for a second run at other decode levels: code that only logs is where a property
+    silently stops holding (C20 says nothing observable may change)"""
+    import random
+    r = random.Random(res.seed * 7919 + len(scs))
+    pick = [s for s in scs if "+dec" not in s.get("tag", "") and "+setdec" not in s.get("tag", "")]
+    return r, r.sample(pick, min(len(pick), k))
+
+
+def run_e1(res, pid, scs, wd, name, levels=True):
     res.samples += sample_of(scs)
     rejs = e1.check_scripts(res, scs, wd, name)
     report_e1(res, pid, rejs)
+    if levels and pid not in ("C20", "C07") and name != "replay":
+        r, pick = _level_sample(res, scs)
+        if pick:
+            report_e1(res, pid, e1.check_scripts(res, e1.at_levels(pick, [[3, 2, 2], r.choice(e1.DECODES)], 0), wd, name + "lv"))
 
 
 @check("C02")
@@ -425,10 +438,14 @@ def _replay_rtu_task(res, pid, obj, wd):
 REPLAYERS["e1-rtutask"] = _replay_rtu_task
 
 
-def run_e2(res, pid, scs, wd, name):
+def run_e2(res, pid, scs, wd, name, levels=True):
     res.samples += sample_e2(scs)
     rejs = e2.check_scripts(res, scs, wd, name)
     report_e2(res, pid, rejs)
+    if levels and pid not in ("C20", "C07") and name != "replay":
+        r, pick = _level_sample(res, scs)
+        if pick:
+            report_e2(res, pid, e2.check_scripts(res, e2.at_levels(pick, [[3, 2, 2], r.choice(e2.DECODES)]), wd, name + "lv"))
 
 
 def _replay_e2(res, pid, obj, wd):
